@@ -649,6 +649,137 @@ def p3_shard(item, deadline):
     return acc
 
 
+# ===================================================================================== part 4: steady state
+
+def p4_case(ttl, phase):
+    """Register once, let every renewal through, and broadcast once a second for more than two renewal cycles plus the
+    device's own expiry tracking interval: a device whose registration is renewed and acknowledged all the time must be
+    served and listed all the time.  Returns (problems, facts)."""
+    lay = {"subnets": [[1, 1]], "fds": [0], "bdt": "full", "mask": "host", "phase": phase}
+    h = Hist({"layout": lay, "sources": ["o0a"], "read": ["b0"], "manager": "o0a", "ttls": [ttl], "mute": False, "label": "steady"})
+    s = h.sys
+    h.apply(("reg", "f0", ttl))
+    rec = s.life["f0"].rec.get("b0")
+    if rec is None:
+        return [("fd:not-served-while-registered:no-acknowledgement", {"ttl": ttl, "results": s.results})], {}
+    t_ack = rec[0]
+    end = t_ack + 2 * (ttl + bbmdref.GRACE) + ttl + 5
+    t = t_ack + 0.25
+    missed = []
+    probes = 0
+    while t <= end and not h.problems:
+        h.apply(("adv", t - vclock.clock.now))
+        n_up = len(s.nodes["f0"].up)
+        h.apply(("bcast", "o0a"))
+        if len(s.nodes["f0"].up) <= n_up:
+            missed.append(round(t - t_ack, 2))
+        n_o = len(s.nodes["o0a"].up)
+        h.apply(("bcast", "f0"))
+        if len(s.nodes["o0a"].up) <= n_o:
+            missed.append(("own", round(t - t_ack, 2)))
+        probes += 1
+        # dense around the instants where the device's own tracker (TTL + grace after an ack) could fire
+        rel = (t - t_ack) % (ttl + bbmdref.GRACE)
+        t += 0.5 if (rel < 2 or rel > ttl + bbmdref.GRACE - 2) else 1.0
+    problems = list(h.problems)
+    if missed and not problems:
+        problems.append(("fd:not-served-while-continuously-renewed", {"ttl": ttl, "missed_at_seconds_after_first_ack": missed[:6]}))
+    return problems, {"ttl": ttl, "phase": phase, "probes": probes, "missed": missed[:6], "transitions": len(h.trace)}
+
+
+def p4_shard(item, deadline):
+    acc = Acc()
+    for ttl, phase in item:
+        if time.time() > deadline:
+            acc.cap("part4: deadline inside the steady-state sweep")
+            break
+        problems, facts = p4_case(ttl, phase)
+        acc.case(("p4", ttl, phase))
+        acc.traces += 1
+        acc.transitions += facts.get("transitions", 1)
+        acc.outcome("p4:%s" % ("always-served" if not problems else problems[0][0]))
+        for sig, detail in problems:
+            acc.fail(sig, {"problem": sig, "detail": detail, "facts": facts}, {"part": 4, "ttl": ttl, "phase": phase})
+    return acc
+
+
+# ===================================================================================== part 5: the grace is one constant
+
+def p5_case(ttls, phase):
+    """Several foreign devices register with one BBMD in the same instant (table order = order of `ttls`), every renewal
+    is lost.  The time between the end of a device's time-to-live and the instant it stops being listed / served is the
+    grace period: it must be the same for every device, whatever else is in the table.  Returns (problems, facts)."""
+    n = len(ttls)
+    lay = {"subnets": [[1, 1]], "fds": [0] * n, "bdt": "full", "mask": "host", "phase": phase}
+    h = Hist({"layout": lay, "sources": ["o0a"], "read": ["b0"], "manager": "o0a", "ttls": sorted(set(ttls)), "mute": True, "label": "grace"})
+    s = h.sys
+    fds = sorted(s.life)
+    for fd, ttl in zip(fds, ttls):
+        h.apply(("reg", fd, ttl))
+    acks = {}
+    for fd in fds:
+        rec = s.life[fd].rec.get("b0")
+        if rec is None:
+            return [("fd:not-served-while-registered:no-acknowledgement", {"ttls": ttls})], {}
+        acks[fd] = rec[0]
+        h.apply(("lose", fd))
+    end = max(acks.values()) + max(ttls) + bbmdref.GRACE + 1.5
+    unlisted, unserved = {}, {}
+    t = min(acks.values()) + 0.25
+    while t <= end and not h.problems:
+        h.apply(("adv", t - vclock.clock.now))
+        before = {fd: len(s.nodes[fd].up) for fd in fds}
+        h.apply(("bcast", "o0a"))
+        n_r = len(s.fdt_replies)
+        h.apply(("read", "b0"))
+        for fd in fds:
+            listed = any(e[0] == s.nodes[fd].ref_addr for r in s.fdt_replies[n_r:] for e in r[2])
+            if not listed and fd not in unlisted:
+                unlisted[fd] = t
+            if len(s.nodes[fd].up) <= before[fd] and fd not in unserved:
+                unserved[fd] = t
+        t += 0.5
+    problems = list(h.problems)
+    grace_l = {fd: round(unlisted[fd] - acks[fd] - ttl, 2) for fd, ttl in zip(fds, ttls) if fd in unlisted}
+    grace_s = {fd: round(unserved[fd] - acks[fd] - ttl, 2) for fd, ttl in zip(fds, ttls) if fd in unserved}
+    facts = {"ttls": list(ttls), "phase": phase, "grace_until_unlisted": grace_l, "grace_until_unserved": grace_s,
+             "transitions": len(h.trace)}
+    if not problems:
+        for name, g in (("listed", grace_l), ("served", grace_s)):
+            if len(g) == n and len(set(g.values())) > 1:
+                problems.append(("fd:grace-differs-between-devices-of-one-table:%s" % name,
+                                 {"ttls_in_table_order": list(ttls), "seconds_after_ttl_end": g}))
+    return problems, facts
+
+
+def p5_cases(tier):
+    import itertools as it
+    base = [(2, 2), (3, 1), (1, 3), (2, 5), (5, 2), (10, 20), (20, 10), (7, 5, 3), (3, 5, 7), (2, 2, 2), (7, 5, 3, 10), (1, 2, 3, 4)]
+    if tier != "quick":
+        base += list(it.permutations((2, 4, 6))) + list(it.permutations((1, 3, 5, 9))) + [(30, 60), (60, 30), (5,) * 5]
+    for ttls in base:
+        for phase in ((0.25,) if tier == "quick" else (0.25, 0.75)):
+            yield (tuple(ttls), phase)
+
+
+def p5_shard(item, deadline):
+    acc = Acc()
+    for ttls, phase in item:
+        if time.time() > deadline:
+            acc.cap("part5: deadline inside the grace sweep")
+            break
+        problems, facts = p5_case(ttls, phase)
+        acc.case(("p5", ttls, phase))
+        acc.traces += 1
+        acc.transitions += facts.get("transitions", 1)
+        acc.outcome("p5:grace=%s" % sorted(set(facts.get("grace_until_unlisted", {}).values())))
+        for sig, detail in problems:
+            acc.fail(sig, {"problem": sig, "detail": detail, "facts": facts}, {"part": 5, "ttls": list(ttls), "phase": phase})
+        if ttls == (7, 5, 3, 10):
+            acc.sample({"part": 5, "facts": facts})
+    return acc
+
+
 # ===================================================================================== entry points
 
 def _determinism():
@@ -677,8 +808,19 @@ def run(tier, seed, deadline):
     acc = Acc()
     t0 = time.time()
     span = deadline - t0
-    parts = os.environ.get("BV_C13_PARTS", "123")       # debugging aid only
+    parts = os.environ.get("BV_C13_PARTS", "12345")     # debugging aid only
     _determinism()
+
+    # ---- parts 4 and 5 (cheap, bounded)
+    if "4" in parts:
+        ttls4 = (1, 2, 3, 4, 5, 7, 10, 20, 30, 45, 60, 300) if tier == "quick" else tuple(range(1, 31)) + (40, 45, 50, 59, 60, 61, 90, 120, 299, 300)
+        cases4 = [(ttl, ph) for ttl in ttls4 for ph in ((0.25,) if tier == "quick" else (0.25, 0.75))]
+        run_shards(p4_shard, [[c] for c in sorted(cases4, key=lambda c: -c[0])], t0 + span * 0.2, into=acc)
+        acc.info["part4 cases"] = len(cases4)
+    if "5" in parts:
+        cases5 = list(p5_cases(tier))
+        run_shards(p5_shard, chunks(cases5, 32), t0 + span * 0.25, into=acc)
+        acc.info["part5 cases"] = len(cases5)
 
     # ---- part 3 (cheap, bounded)
     if "3" in parts:
@@ -714,7 +856,21 @@ def run(tier, seed, deadline):
     return acc
 
 
+def _replay_sweeps(case):
+    if case.get("part") == 4:
+        problems, facts = p4_case(case["ttl"], case["phase"])
+        return not problems, "steady state ttl=%r: %r\n%r" % (case["ttl"], problems[:3], facts)
+    if case.get("part") == 5:
+        problems, facts = p5_case(tuple(case["ttls"]), case["phase"])
+        return not problems, "grace constancy ttls=%r: %r\n%r" % (case["ttls"], problems[:3], facts)
+    return None
+
+
 def replay(case):
+    vclock.install()
+    r = _replay_sweeps(case)
+    if r is not None:
+        return r
     vclock.install()
     part = case["part"]
     if part == 1:
